@@ -491,6 +491,7 @@ type c12EvAmp struct {
 
 type c12EvScenario struct {
 	Has  int        `json:"has"`
+	Free int        `json:"free"` // 1: a flank carries a free-standing priming site (it can pair with a planted one)
 	Lf   []int      `json:"lf"`
 	Mid  []int      `json:"mid"`
 	Rf   []int      `json:"rf"`
@@ -1355,6 +1356,10 @@ func c12RandScenario(r *rand.Rand, sh *c12Sheet) c12Built {
 	}
 	if dangling {
 		cls = append(cls, "dangling-site")
+		// a free-standing site in a flank can pair with a planted site of the same marker: the planted amplicon is then
+		// legitimately reported with a longer barcode: the self-check "a clean planted amplicon is reported as planted"
+		// of the trace specification is not applied
+		sc.Free = 1
 	}
 	if sh.Delim != "" {
 		cls = append(cls, "delimiter")
